@@ -115,6 +115,9 @@ pub fn run_stream(label: &str, flavour: Flavour, n_ext: usize, query: &str, para
             sim::log_order(format!("response {}", v));
             world::push_event(RKind::Response, "", "", "", (0, 0), world::NodeData { id: -1, ev: -1 });
             out2.borrow_mut().0.push(v);
+            if out2.borrow().0.len() % 64 == 0 {
+                sim::yield_now().await;
+            }
             if consumer_lag > 0 {
                 n += 1;
                 sim::sleep(world::latency_for(&format!("consumer{n}")) * consumer_lag).await;
